@@ -38,9 +38,12 @@ RESV = lambda cpu: dict(k="resv", cpu=cpu, gpus=1, mem=0, dev=0, bymem=0)
 
 MODELS = {
     # name: (node, kinds, groups, snapshot statuses, MaxSnap, MaxOps)
-    "q": (dict(n=2, gpumem=100, cpu=4000, maxpods=3),
-          [FRAC(1000, 50), FRAC(1000, 50), FRAC(2000, 30), WHOLE(1000, 1)],
-          ["g1", "g2", "g3", "g4"], ["Running", "Releasing"], 2, 8),
+    "q": (dict(n=2, gpumem=100, cpu=3000, maxpods=3),
+          [FRAC(1000, 50), FRAC(2000, 50), WHOLE(1000, 1)],
+          ["g1", "g2", "g3", "g4"], ["Running", "Releasing"], 2, 9),
+    "t0": (dict(n=2, gpumem=100, cpu=4000, maxpods=3),
+           [FRAC(1000, 50), FRAC(1000, 50), FRAC(2000, 30), WHOLE(1000, 1)],
+           ["g1", "g2", "g3", "g4"], ["Running", "Releasing"], 2, 8),
     "t1": (dict(n=2, gpumem=100, cpu=4000, maxpods=4),
            [FRAC(1000, 50), FRAC(1000, 50), FRAC(2000, 70), WHOLE(1000, 1), CPU(2000)],
            ["g1", "g2", "g3", "g4", "g5"], ["Running", "Releasing", "Binding"], 3, 9),
@@ -236,7 +239,7 @@ def run_stage(ctx, prefixes):
         "incarnation of a fraction pod re-nominated onto another GPU group of the same node (ConsolidateSharedPodInfoToDifferentGPU)",
         "NodeAcct: GPU group names are reused only as the code would see fresh UUIDs; RAM is accounted like CPU and not logged",
     ]
-    models = ["q"] if ctx.quick else ["q", "t1", "t2"]
+    models = ["q"] if ctx.quick else ["q", "t0", "t1", "t2"]
     for name in models:
         edges, m = model_pass(ctx, name, prefixes)
         node, kinds = m[0], m[1]
